@@ -193,10 +193,10 @@ def run(ctx: Any, prog: Program) -> None:
     ctx.check('C15.F2', rsig == wsig, vtf, wnode, f'read() iterates frames as {rsig} but save() as {wsig}', func='VTF.save', text='frame loop nest')
     ctx.check('C15.F2', rkey == wkey and rkey != '', vtf, wnode, f'_frames key order: read() `{rkey}` vs save() `{wkey}`', func='VTF.save', text='frame key order')
     ok = any(isinstance(n, ast.Assign) and ast.unparse(n) == 'depth_seq = vtf._depth_range()' for n in walk_no_nested(rd)) and any(isinstance(n, ast.Assign) and ast.unparse(n).startswith('depth_seq = self._depth_range(') for n in walk_no_nested(sv))
-    ctx.check('C15.F2', ok, vtf, sv, 'both sides must take the depth/side sequence from _depth_range()', func='VTF.save', text='depth sequence source')
+    ctx.shape('C15.F2', ok, vtf, sv, 'both sides must take the depth/side sequence from _depth_range()', func='VTF.save', text='depth sequence source')
     # mip sizes on read
     rsrc = ast.unparse(rd)
-    ctx.check('C15.F2', 'mip_width = max(width >> data_mipmap, 1)' in rsrc and 'mip_height = max(height >> data_mipmap, 1)' in rsrc and 'Frame(mip_width, mip_height)' in rsrc, vtf, rnode,
+    ctx.shape('C15.F2', 'mip_width = max(width >> data_mipmap, 1)' in rsrc and 'mip_height = max(height >> data_mipmap, 1)' in rsrc and 'Frame(mip_width, mip_height)' in rsrc, vtf, rnode,
               'read() must size mipmap n as max(dim >> n, 1) in both dimensions', func='VTF.read', text='mip dimensions')
     # constructor frame table vs declared count
     init = vm['__init__']
@@ -421,21 +421,49 @@ def run(ctx: Any, prog: Program) -> None:
                       func=f'Frame.{mname}', text=f'{var} strict upper bound')
     # ---- F5 --------------------------------------------------------------------------------------------------
     rf = fr['rescale_from']
-    rsrc = ast.unparse(rf)
-    ok = 'self.width == larger.width or 2 * self.width == larger.width' in rsrc and 'self.height == larger.height or 2 * self.height == larger.height' in rsrc and 'raise ValueError' in rsrc
-    ctx.check('C15.F5', ok, vtf, rf, 'rescale_from must accept only equal or exactly doubled dimensions', func='Frame.rescale_from', text='size relation checked')
+    guard = [n for n in walk_no_nested(rf) if isinstance(n, ast.If) and any(isinstance(b, ast.Raise) for b in n.body)]
+    if len(guard) != 1:
+        ctx.shape('C15.F5', False, vtf, rf, 'size guard of rescale_from not found', func='Frame.rescale_from', text='size relation checked')
+    else:
+        cmps = [c for c in ast.walk(guard[0].test) if isinstance(c, ast.Compare)]
+        loose = [c for c in cmps if not isinstance(c.ops[0], ast.Eq)]
+        sides = {re.sub(r'^2 \* ', '', ast.unparse(c.left)) for c in cmps}
+        if loose:
+            ctx.check('C15.F5', False, vtf, loose[0], f'`{ast.unparse(loose[0])}` accepts sizes that are neither equal nor exactly double: scale_down only handles factors 1 and 2 per dimension', func='Frame.rescale_from', text='size relation checked')
+        else:
+            ctx.shape('C15.F5', sides == {'self.width', 'self.height'} and len(cmps) == 4, vtf, guard[0], 'equal-or-double test per dimension', func='Frame.rescale_from', text='size relation checked')
     sd = py.func('scale_down')
     ssrc = ast.unparse(sd)
     terms = ['src[off2 + channel]', 'src[off2 + channel + horiz_off]', 'src[off2 + channel + vert_off]', 'src[off2 + channel + vert_off + horiz_off]']
-    ok = all(t in ssrc for t in terms) and ') // 4' in ssrc
-    ctx.check('C15.F5', ok, py, sd, 'bilinear scale_down must average the four parent samples (0, horiz, vert, both) and divide by 4', func='scale_down', text='bilinear = mean of four (Python)')
+
+    def mean_terms(fn_body_src: ast.AST) -> Optional[Tuple[List[str], Any]]:
+        for n in ast.walk(fn_body_src):
+            if isinstance(n, ast.BinOp) and isinstance(n.op, (ast.FloorDiv, ast.RShift)) and isinstance(n.right, ast.Constant):
+                ts: List[str] = []
+
+                def adds(e: ast.AST) -> None:
+                    if isinstance(e, ast.BinOp) and isinstance(e.op, ast.Add):
+                        adds(e.left)
+                        adds(e.right)
+                    else:
+                        ts.append(ast.unparse(e))
+                adds(n.left)
+                if len(ts) >= 2 and all(t.startswith('src[') for t in ts):
+                    return ts, n.right.value if isinstance(n.op, ast.FloorDiv) else 2 ** n.right.value
+        return None
+    mt_ = mean_terms(sd)
+    if mt_ is None:
+        ctx.shape('C15.F5', False, py, sd, 'bilinear mean expression not found', func='scale_down', text='bilinear = mean of four (Python)')
+    else:
+        ctx.check('C15.F5', sorted(mt_[0]) == sorted(terms) and mt_[1] == 4, py, sd, f'bilinear scale_down sums {mt_[0]} and divides by {mt_[1]}: it must average the four parent samples (0, horiz, vert, both)', func='scale_down',
+                  text='bilinear = mean of four (Python)')
     ok = 'horiz_off, per_column = (4, 2)' in ssrc and 'vert_off, per_row = (4 * per_column * width, 2 * per_column * width)' in ssrc and 'off2 = 4 * (per_row * y + per_column * x)' in ssrc
-    ctx.check('C15.F5', ok, py, sd, 'parent pixel addressing: two source pixels per destination pixel in each halved dimension', func='scale_down', text='parent addressing (Python)')
+    ctx.shape('C15.F5', ok, py, sd, 'parent pixel addressing: two source pixels per destination pixel in each halved dimension', func='scale_down', text='parent addressing (Python)')
     ctxt = re.sub(r'<\w+>', '', ' '.join(l.text for l in px.func('scale_down').body)).replace(' ', '')
     ok = all(t.replace(' ', '') in ctxt for t in terms) and ')//4)' in ctxt
-    ctx.check('C15.F5', ok, py, sd, 'Cython scale_down must average the same four samples', func='scale_down', text='bilinear = mean of four (Cython)', file=px.relpath)
+    ctx.shape('C15.F5', ok, py, sd, 'Cython scale_down must average the same four samples', func='scale_down', text='bilinear = mean of four (Cython)', file=px.relpath)
     ok = 'for mipmap in range(1, self.mipmap_count)' in ast.unparse(vm['compute_mipmaps']) and 'self._frames[frame_num, depth_side, mipmap - 1]' in ast.unparse(vm['compute_mipmaps'])
-    ctx.check('C15.F5', ok, vtf, vm['compute_mipmaps'], 'each cleared mipmap is regenerated from the next larger level', func='VTF.compute_mipmaps', text='mipmap chain')
+    ctx.shape('C15.F5', ok, vtf, vm['compute_mipmaps'], 'each cleared mipmap is regenerated from the next larger level', func='VTF.compute_mipmaps', text='mipmap chain')
     # ---- F6 --------------------------------------------------------------------------------------------------
     sm = vtf.methods('SheetSequence')
     fr_, mk = sm['from_resource'], sm['make_data']
@@ -452,16 +480,32 @@ def run(ctx: Any, prog: Program) -> None:
                     if rn in link:
                         ctx.check('C15.F6', link[rn] == wn, vtf, b.node, f'sheet v{ver}: read() takes `{rn}` where make_data packs `{wn}`', func='SheetSequence.make_data', text=f'sheet v{ver} field {rn}')
     fsrc, msrc = ast.unparse(fr_), ast.unparse(mk)
-    ok = fsrc.count('TexCoord.from_binary(data, offset') == 5 and 'offset += 16' in fsrc and 'offset += 64' in fsrc and all(f'offset + {k})' in fsrc for k in (16, 32, 48))
-    ctx.check('C15.F6', ok, vtf, fr_, 'version 0 reads one 16-byte coordinate block, version 1 four consecutive ones', func='SheetSequence.from_resource', text='coordinate block sizes')
+    ver_if = [n for n in ast.walk(fr_) if isinstance(n, ast.If) and ast.unparse(n.test) == 'version == 0']
+    if len(ver_if) != 1:
+        ctx.shape('C15.F6', False, vtf, fr_, 'version dispatch of the coordinate blocks not found', func='SheetSequence.from_resource', text='coordinate block sizes')
+    else:
+        for label, body in (('v0', ver_if[0].body), ('v1', ver_if[0].orelse)):
+            calls = [c for st in body for c in ast.walk(st) if isinstance(c, ast.Call) and dotted(c.func) == 'TexCoord.from_binary']
+            incs = [st.value.value for st in body if isinstance(st, ast.AugAssign) and dotted(st.target) == 'offset' and isinstance(st.value, ast.Constant)]
+            offs = sorted((0 if dotted(c.args[1]) == 'offset' else (c.args[1].right.value if isinstance(c.args[1], ast.BinOp) and isinstance(c.args[1].right, ast.Constant) else -1)) for c in calls)
+            if not calls or len(incs) != 1:
+                ctx.shape('C15.F6', False, vtf, ver_if[0], f'{label}: coordinate reads / offset increment not found', func='SheetSequence.from_resource', text=f'coordinate block sizes {label}')
+                continue
+            ctx.check('C15.F6', incs[0] == 16 * len(calls) and offs == [16 * i for i in range(len(calls))], vtf, ver_if[0], f'{label}: {len(calls)} coordinate blocks of 16 bytes are read at offsets {offs} but the cursor advances by {incs[0]}',
+                      func='SheetSequence.from_resource', text=f'coordinate block sizes {label}')
     ok = msrc.count('.to_binary()') == 4 and 'if version == 1' in msrc and 'tex_a.to_binary()' in msrc.split('if version == 1')[0]
-    ctx.check('C15.F6', ok, vtf, mk, 'make_data writes the first coordinate always and the other three for version 1', func='SheetSequence.make_data', text='coordinate blocks written')
+    ctx.shape('C15.F6', ok, vtf, mk, 'make_data writes the first coordinate always and the other three for version 1', func='SheetSequence.make_data', text='coordinate blocks written')
     tc = vtf.methods('TexCoord')
-    ok = "struct.unpack_from('<4f', buffer, offset)" in ast.unparse(tc['from_binary']) and "struct.pack('<4f', self.left, self.top, self.right, self.bottom)" in ast.unparse(tc['to_binary'])
     fields = [st.target.id for st in vtf.cls('TexCoord').body if isinstance(st, ast.AnnAssign) and isinstance(st.target, ast.Name)]
-    ctx.check('C15.F6', ok and fields == ['left', 'top', 'right', 'bottom'], vtf, tc['to_binary'], 'TexCoord packs its fields in declaration order, from_binary passes them positionally', func='TexCoord.to_binary', text='TexCoord field order')
+    packs = [c for c in ast.walk(tc['to_binary']) if isinstance(c, ast.Call) and dotted(c.func) == 'struct.pack']
+    positional = "cls(*data)" in ast.unparse(tc['from_binary']) or "cls(*struct.unpack_from" in ast.unparse(tc['from_binary'])
+    if len(packs) != 1 or not positional:
+        ctx.shape('C15.F6', False, vtf, tc['to_binary'], 'TexCoord pack / positional construction not found', func='TexCoord.to_binary', text='TexCoord field order')
+    else:
+        order = [a.attr for a in packs[0].args[1:] if isinstance(a, ast.Attribute) and dotted(a.value) == 'self']
+        ctx.check('C15.F6', order == fields, vtf, packs[0], f'TexCoord.to_binary packs {order} but from_binary passes the values positionally to the fields {fields}', func='TexCoord.to_binary', text='TexCoord field order')
     ok = "seq_num, clamp, frame_count, total_time" in fsrc.replace('(', '').replace(')', '') and 'SheetSequence(frames, clamp, total_time)' in fsrc
-    ctx.check('C15.F6', ok, vtf, fr_, 'sequence header fields reach the SheetSequence constructor in (frames, clamp, duration) order', func='SheetSequence.from_resource', text='sequence constructor linkage')
+    ctx.shape('C15.F6', ok, vtf, fr_, 'sequence header fields reach the SheetSequence constructor in (frames, clamp, duration) order', func='SheetSequence.from_resource', text='sequence constructor linkage')
 
 
 def accepted_region(test: ast.AST) -> Dict[Tuple[str, str], str]:
